@@ -28,6 +28,11 @@ def Outcome.toString : Outcome → String
 
 /-! ## Rule records and `IsValidRule`, clause by clause (the result is the number of the first failing clause) -/
 
+/-- number (from `i`) of the first clause that fires, `0` if none does -/
+def firstTrue (i : Nat) : List Bool → Nat
+  | [] => 0
+  | b :: bs => if b then i else firstTrue (i + 1) bs
+
 structure FlowRule where
   res : String
   tcs : Int        -- TokenCalculateStrategy (int32): 0 Direct, 1 WarmUp, 2 MemoryAdaptive
@@ -47,22 +52,22 @@ deriving DecidableEq, Repr, Inhabited
 
 /-- `flow.IsValidRule` (non-nil part); `tm` = `system_metric.TotalMemorySize` -/
 def flowClause (tm : Int) (r : FlowRule) : Nat :=
-  if r.res = "" then 1
-  else if r.th2 < 0 then 2
-  else if r.tcs < 0 then 3
-  else if r.cb < 0 then 4
-  else if ¬ (0 ≤ r.rel ∧ r.rel ≤ 1) then 5
-  else if r.rel = 1 ∧ r.ref = "" then 6
-  else if r.tcs = 1 ∧ r.wuPeriod = 0 then 7
-  else if r.tcs = 1 ∧ r.wuCf = 1 then 8
-  else if r.tcs = 2 ∧ r.lowMem ≤ 0 then 9
-  else if r.tcs = 2 ∧ r.highMem ≤ 0 then 10
-  else if r.tcs = 2 ∧ r.highMem ≥ r.lowMem then 11
-  else if r.tcs = 2 ∧ r.memLow ≤ 0 then 12
-  else if r.tcs = 2 ∧ r.memHigh ≤ 0 then 13
-  else if r.tcs = 2 ∧ r.memHigh > tm then 14
-  else if r.tcs = 2 ∧ r.memLow ≥ r.memHigh then 15
-  else 0
+  firstTrue 1
+    [ decide (r.res = ""),
+      decide (r.th2 < 0),
+      decide (r.tcs < 0),
+      decide (r.cb < 0),
+      decide (¬ (0 ≤ r.rel ∧ r.rel ≤ 1)),
+      decide (r.rel = 1 ∧ r.ref = ""),
+      decide (r.tcs = 1 ∧ r.wuPeriod = 0),
+      decide (r.tcs = 1 ∧ r.wuCf = 1),
+      decide (r.tcs = 2 ∧ r.lowMem ≤ 0),
+      decide (r.tcs = 2 ∧ r.highMem ≤ 0),
+      decide (r.tcs = 2 ∧ r.highMem ≥ r.lowMem),
+      decide (r.tcs = 2 ∧ r.memLow ≤ 0),
+      decide (r.tcs = 2 ∧ r.memHigh ≤ 0),
+      decide (r.tcs = 2 ∧ r.memHigh > tm),
+      decide (r.tcs = 2 ∧ r.memLow ≥ r.memHigh) ]
 
 /-- a generator is registered in `tcGenFuncMap` (and then always returns a controller) -/
 def flowBuildable (r : FlowRule) : Bool := (r.tcs = 0 ∨ r.tcs = 1 ∨ r.tcs = 2) ∧ (r.cb = 0 ∨ r.cb = 1)
@@ -77,7 +82,10 @@ structure IsoRule where
 deriving DecidableEq, Repr, Inhabited
 
 def isoClause (r : IsoRule) : Nat :=
-  if r.res = "" then 1 else if r.metric ≠ 0 then 2 else if r.th = 0 then 3 else 0
+  firstTrue 1
+    [ decide (r.res = ""),
+      decide (r.metric ≠ 0),
+      decide (r.th = 0) ]
 
 structure HotRule where
   res : String
@@ -94,15 +102,15 @@ structure HotRule where
 deriving DecidableEq, Repr, Inhabited
 
 def hotClause (r : HotRule) : Nat :=
-  if r.res = "" then 1
-  else if r.th < 0 then 2
-  else if r.metric < 0 then 3
-  else if r.cb < 0 then 4
-  else if r.metric = 1 ∧ r.dur ≤ 0 then 5
-  else if r.pidx > 0 ∧ r.pkey ≠ "" then 6
-  else if r.cb = 0 ∧ r.burst < 0 then 7
-  else if r.cb = 1 ∧ r.maxQ < 0 then 8
-  else 0
+  firstTrue 1
+    [ decide (r.res = ""),
+      decide (r.th < 0),
+      decide (r.metric < 0),
+      decide (r.cb < 0),
+      decide (r.metric = 1 ∧ r.dur ≤ 0),
+      decide (r.pidx > 0 ∧ r.pkey ≠ ""),
+      decide (r.cb = 0 ∧ r.burst < 0),
+      decide (r.cb = 1 ∧ r.maxQ < 0) ]
 
 /-- `tcGenFuncMap[ControlBehavior]` exists and `newBaseTrafficShapingController` knows the metric type -/
 def hotBuildable (r : HotRule) : Bool := (r.cb = 0 ∨ r.cb = 1) ∧ (r.metric = 0 ∨ r.metric = 1)
@@ -123,13 +131,13 @@ structure CbRule where
 deriving DecidableEq, Repr, Inhabited
 
 def cbClause (r : CbRule) : Nat :=
-  if r.res = "" then 1
-  else if r.statMs = 0 then 2
-  else if r.retryMs = 0 then 3
-  else if r.th2 < 0 then 4
-  else if r.strategy = 0 ∧ r.th2 > 2 then 5
-  else if r.strategy = 1 ∧ r.th2 > 2 then 6
-  else 0
+  firstTrue 1
+    [ decide (r.res = ""),
+      decide (r.statMs = 0),
+      decide (r.retryMs = 0),
+      decide (r.th2 < 0),
+      decide (r.strategy = 0 ∧ r.th2 > 2),
+      decide (r.strategy = 1 ∧ r.th2 > 2) ]
 
 def cbBuildable (r : CbRule) : Bool := r.strategy ≤ 2
 
@@ -140,7 +148,10 @@ structure SysRule where
 deriving DecidableEq, Repr, Inhabited
 
 def sysClause (r : SysRule) : Nat :=
-  if r.th2 < 0 then 1 else if r.metric ≥ 5 then 2 else if r.metric = 4 ∧ r.th2 > 2 then 3 else 0
+  firstTrue 1
+    [ decide (r.th2 < 0),
+      decide (r.metric ≥ 5),
+      decide (r.metric = 4 ∧ r.th2 > 2) ]
 
 structure OutRule where
   pct2 : Int                 -- MaxEjectionPercent, in halves
